@@ -20,6 +20,7 @@ pub mod c43;
 pub mod c44;
 pub mod c45;
 pub mod kalman;
+pub mod misc;
 pub mod packet;
 pub mod server;
 pub mod source;
@@ -30,6 +31,7 @@ pub fn registry() -> Vec<Entry> {
         entry::<kalman::C02>(false),
         entry::<kalman::C03>(false),
         entry::<kalman::C04>(false),
+        entry::<misc::C05>(false),
         entry::<kalman::C06>(false),
         entry::<source::C07>(false),
         entry::<source::C08>(false),
@@ -38,6 +40,7 @@ pub fn registry() -> Vec<Entry> {
         entry::<source::C11>(false),
         entry::<source::C12>(false),
         entry::<source::C13>(false),
+        entry::<misc::C14>(false),
         entry::<server::C15>(false),
         entry::<server::C16>(false),
         entry::<server::C17>(false),
@@ -56,9 +59,11 @@ pub fn registry() -> Vec<Entry> {
         entry::<c30::C30>(true),
         entry::<c31::C31>(false),
         entry::<c32::C32>(false),
+        entry::<misc::C33>(false),
         entry::<c34::C34>(false),
         entry::<c35::C35>(false),
         entry::<c36::C36>(false),
+        entry::<misc::C37>(false),
         entry::<c38::C38>(false),
         entry::<c39::C39>(true),
         entry::<c40::C40>(false),
